@@ -89,3 +89,35 @@ func VerifC03Regex() {
 func verifRegexSpec(pat string, name []byte) bool {
 	return regexp.MustCompile(pat).Match(name)
 }
+
+// VerifC03Combined: all six options on one filter at once -- prefix and notPrefix of 0..2 free bytes, sub and notSub of
+// 0..1 free bytes, a concrete regex and a concrete notRegex -- against the conjunction written out here. Options
+// that look redundant next to each other (a notPrefix that extends the literal head of an anchored notRegex, a
+// prefix that a regex's own literal head already implies) are where an internal shortcut would drop one of them.
+func VerifC03Combined() {
+	nl := verifChoice("namelen", len(verifParam("maxlen"))+1)
+	name := verifBytes("name", nl)
+	for _, b := range name {
+		verifAssume(b < 0x80)
+	}
+	regex, notRegex := verifParam("regex"), verifParam("notRegex")
+	prefix := verifString("prefix", verifChoice("plen", 3))
+	notPrefix := verifString("notPrefix", verifChoice("nplen", 3))
+	sub := verifString("sub", verifChoice("slen", 2))
+	notSub := verifString("notSub", verifChoice("nslen", 2))
+	m, err := New(prefix, notPrefix, sub, notSub, regex, notRegex)
+	if err != nil {
+		verifCover("compile-error")
+		return
+	}
+	got := m.Match(name)
+	want := verifSpecLiteral(name, []byte(prefix), []byte(notPrefix), []byte(sub), []byte(notSub))
+	if regex != "" {
+		want = want && verifRegexSpec(regex, name)
+	}
+	if notRegex != "" {
+		want = want && !verifRegexSpec(notRegex, name)
+	}
+	verifAssert(got == want, "match-equals-spec")
+	verifCover("end")
+}
